@@ -142,6 +142,14 @@ def enumerate_cases(tier: str):
                 ops = [["rx", f"0;255;0;0;18;{a}\n"], ["probe", "edge"], ["rx", f"0;255;3;0;2;{b}\n"], ["probe", "edge"], ["rx", f"0;255;0;0;18;{a}\n"], ["probe", "edge"],
                        ["rx", f"0;255;3;0;2;{b}\n"], ["rx", f"0;255;3;0;2;{b}\n"], ["probe", "edge"], ["rx", f"0;255;3;0;2;{a}\n"], ["rx", f"0;255;3;0;2;{b}\n"], ["rx", f"0;255;3;0;2;{a}\n"], ["probe", "edge"]]
                 yield {"kind": "hist", "listen_mode": mode, "ops": ops, "via": via}
+    # the listening task is cancelled right after the report arrived; a second listener is already waiting when the report arrives
+    for report in ("1.5.1", "2.0.0", "2.2.0"):
+        for form in ("0;255;3;0;2;{}\n", "0;255;0;0;18;{}\n"):
+            for k in (0, 1, 2, 3, 5):
+                yield {"kind": "hist", "listen_mode": "fresh", "ops": [["rx_cancel", form.format(report), k], ["probe", "edge"], ["rx", form.format("2.1.1")], ["rx_cancel", form.format(report), k], ["probe", "edge"]]}
+        for first in (None, "1.4", "2.1.1"):
+            ops = ([] if first is None else [["rx", f"0;255;3;0;2;{first}\n"]]) + [["two_listeners", f"0;255;3;0;2;{report}\n", "0;255;3;0;14;Gateway startup complete.\n"], ["probe", "edge"]]
+            yield {"kind": "hist", "listen_mode": "fresh", "ops": ops}
     # the way the previous session ended; a report that arrives behind a long backlog
     for report in ("1.5.1", "2.1.1", "2.2.0"):
         for how in ("transport", "failed", "runtime", "cancelled"):
@@ -438,6 +446,80 @@ def _run_hist(case: dict) -> Outcome:
                 await gateway.__aenter__()
                 in_session = True
                 op = ["rx", "0;255;3;0;9;session restarted\n"]
+            if op[0] == "rx_cancel":
+                # the task that listens is cancelled k loop iterations after the report arrived (shutdown, a timeout around the wait):
+                # a report that was taken off the transport is a report that was received
+                line, k = op[2], int(op[3])
+                if listener is not None:
+                    await listener.close()
+                _t.inbox.append(line)
+                agen = gateway.listen()
+                task = asyncio.ensure_future(agen.__anext__())
+                for _ in range(k):
+                    await asyncio.sleep(0)
+                task.cancel()
+                cancelled = False
+                try:
+                    await task
+                except asyncio.CancelledError:
+                    cancelled = True
+                except Exception:  # noqa: BLE001
+                    pass
+                consumed = line not in _t.inbox
+                _t.inbox.clear()
+                try:
+                    await agen.aclose()
+                except Exception:  # noqa: BLE001
+                    pass
+                text = _report_text(line)
+                if cancelled and consumed and text is not None and ref_protocol(text) is not None and gateway.protocol_version != text:
+                    return fail("report-consumed-then-dropped", f"step {idx}: {line!r} was taken off the transport, the listening task was cancelled {k} loop iterations later, and protocol_version is {gateway.protocol_version!r}")
+                continue
+            if op[0] == "two_listeners":
+                # a second task is already waiting in listen() (for the next line) when the first one receives the report;
+                # what the second one handles afterwards is handled under the reported version
+                report, then = op[2], op[3]
+                if listener is not None:
+                    await listener.close()
+                if not isinstance(_t, env.RecordingTransport):
+                    continue
+                _t.wait_when_empty = True
+                first, second = gateway.listen(), gateway.listen()
+                try:
+                    t_first = asyncio.ensure_future(first.__anext__())
+                    t_second = asyncio.ensure_future(second.__anext__())
+                    for _ in range(3):
+                        await asyncio.sleep(0)
+                    _t.deliver(report)
+                    done, _pending = await asyncio.wait({t_first, t_second}, timeout=2.0, return_when=asyncio.FIRST_COMPLETED)
+                    if not done:
+                        return fail("report-swallowed", f"step {idx}: two listeners wait, {report!r} arrives, nobody yields or rejects it")
+                    for t in done:
+                        t.exception() if not t.cancelled() else None
+                    writes_before = len(_t.writes)
+                    _t.deliver(then)
+                    rest = {t_first, t_second} - done
+                    await asyncio.wait(rest, timeout=2.0)
+                    reported = gateway.protocol_version
+                    want = "1.4" if reported is None else ref_protocol(reported)
+                    if want is not None and then.startswith("0;255;3;0;14;"):
+                        discovered = any(w.split(";")[2:5] == ["3", "0", "20"] for _s, w in _t.writes[writes_before:])
+                        if discovered != want.startswith("2"):
+                            return fail(f"handlers-in-force:discover:{want}", f"step {idx}: a listener was already waiting when {report!r} arrived; the gateway-ready line it handled next {'was' if discovered else 'was not'} answered with a discover request (version {reported!r})")
+                finally:
+                    _t.wait_when_empty = False
+                    if _t._arrival is not None:
+                        _t._arrival.set()
+                    for t in (t_first, t_second):
+                        if not t.done():
+                            t.cancel()
+                    for agen in (first, second):
+                        try:
+                            await agen.aclose()
+                        except BaseException:  # noqa: BLE001
+                            pass
+                    _t.inbox.clear()
+                continue
             if op[0] == "backlog":
                 # the report arrives behind a backlog of n other lines that were all delivered before the application reads any of them
                 count, report = int(op[2]), op[3]
